@@ -5497,3 +5497,82 @@ func c17r18(c *Ctx, r *Report) {
 	}
 	r.floor("calls of strconv.ParseFloat", n, 1)
 }
+
+// c17r19: a parser of package fzf reports an invalid value by returning an error. A caller inside the option
+// parsers that TESTS such an error must not continue to a successful return on the "error is not nil" side:
+// that would accept the invalid value silently (D50: nthTransformer did `else if nth, err := splitNth(expr);
+// err == nil { ... }` with nothing for the other outcome — an invalid placeholder such as {0} or {1..2..3} in
+// a --with-nth / --accept-nth template simply vanished, while the same expression without braces is rejected).
+func c17r19(c *Ctx, r *Report) {
+	l := c.L
+	r.rule("C17-R19", "A (the error outcome never reaches a successful return)", "P1",
+		"in options.go, for every branch on the nil-ness of an error returned by a function of package fzf, no path from the `not nil` side reaches a return whose error result is the constant nil",
+		"an invalid sub-expression is dropped silently: the option is neither accepted as documented nor rejected")
+	n := 0
+	for _, fn := range l.AllFuncs() {
+		if fn.Blocks == nil || fn.Pkg != l.pkg("fzf") || !strings.HasSuffix(l.Fset.Position(fn.Pos()).Filename, "options.go") {
+			continue
+		}
+		res := fn.Signature.Results()
+		ei := -1
+		for i := 0; i < res.Len(); i++ {
+			if isErrorType(res.At(i).Type()) {
+				ei = i
+			}
+		}
+		if ei < 0 {
+			continue
+		}
+		okRet := func(in ssa.Instruction) bool {
+			ret, ok := in.(*ssa.Return)
+			if !ok || len(ret.Results) <= ei {
+				return false
+			}
+			k, isK := retResult(ret, ei).(*ssa.Const)
+			return isK && k.IsNil()
+		}
+		errRet := func(in ssa.Instruction) bool {
+			ret, ok := in.(*ssa.Return)
+			return ok && !okRet(ret)
+		}
+		k := 0
+		eachInstr(fn, func(in ssa.Instruction) {
+			iff, ok := in.(*ssa.If)
+			if !ok {
+				return
+			}
+			b, ok := iff.Cond.(*ssa.BinOp)
+			if !ok || (b.Op != token.EQL && b.Op != token.NEQ) {
+				return
+			}
+			kc, isK := b.Y.(*ssa.Const)
+			if !isK || !kc.IsNil() || !isErrorType(b.X.Type()) {
+				return
+			}
+			ex, ok := b.X.(*ssa.Extract)
+			if !ok {
+				return
+			}
+			call, ok := ex.Tuple.(*ssa.Call)
+			if !ok || call.Common().StaticCallee() == nil || call.Common().StaticCallee().Pkg != fn.Pkg {
+				return
+			}
+			n++
+			k++
+			bad := iff.Block().Succs[1]
+			if b.Op == token.NEQ {
+				bad = iff.Block().Succs[0]
+			}
+			start := bad.Instrs[0]
+			esc := ssa.Instruction(nil)
+			if okRet(start) {
+				esc = start
+			} else if !errRet(start) {
+				esc = pathAvoiding(start, okRet, errRet, nil)
+			}
+			r.check(esc == nil, fmt.Sprintf("%s:error of %s #%d is not swallowed", relName(fn), call.Common().StaticCallee().Name(), k), call.Pos(), fn,
+				"the error outcome only leads to error returns", "after this error the function can still return successfully: the invalid value is dropped without a message")
+		})
+	}
+	r.floor("branches on errors of module parsers in options.go", n, 50)
+}
